@@ -155,7 +155,7 @@ func possNames(rels []dependency.Relation) []string {
 
 // HangGuard is how long one load / read / close step of the library may take before it is declared not to
 // terminate (normal steps take micro- to milliseconds).
-var HangGuard = 20 * time.Second
+var HangGuard = 180 * time.Second
 
 // Aborted is set once a step did not return: the leaked goroutine may hold library-internal locks, so every later
 // execution of this process is skipped (scenarios report exhaustive:false) and the run ends with the violations found.
@@ -176,17 +176,35 @@ func Guarded(f func()) bool {
 
 // Session is one loaded Deb whose phases (load, read payload, close) can be interleaved with other sessions'.
 type Session struct {
-	d    *deb.Deb
-	O    Obs
-	done bool // payload exhausted or failed
+	d      *deb.Deb
+	O      Obs
+	done   bool       // payload exhausted or failed
+	closer deb.Closer // from deb.LoadFile
+	Closes int        // Close / CallCloser calls so far
 }
 
 // Open loads the bytes with the real deb.Load and records everything but the payload.
 func Open(b []byte) *Session {
+	return openWith(func() (*deb.Deb, error) { return deb.Load(bytes.NewReader(b), "verif.deb") })
+}
+
+// OpenFile loads a package file with deb.LoadFile; the returned closer is kept in the session (CallCloser).
+func OpenFile(path string) *Session {
+	var closer deb.Closer
+	s := openWith(func() (*deb.Deb, error) {
+		d, c, err := deb.LoadFile(path)
+		closer = c
+		return d, err
+	})
+	s.closer = closer
+	return s
+}
+
+func openWith(load func() (*deb.Deb, error)) *Session {
 	s := &Session{}
 	panicked, msg := mc.Guard(func() {
 		var err error
-		s.d, err = deb.Load(bytes.NewReader(b), "verif.deb")
+		s.d, err = load()
 		if err != nil {
 			s.O.LoadErr = err.Error()
 			if s.O.LoadErr == "" {
@@ -306,7 +324,20 @@ func (s *Session) ReadPayload() {
 // Close closes the Deb.
 func (s *Session) Close() {
 	if s.d != nil {
-		mc.Guard(func() { s.d.Close() })
+		s.Closes++
+		if panicked, msg := mc.Guard(func() { s.d.Close() }); panicked && s.O.Panic == "" {
+			s.O.Panic = fmt.Sprintf("Deb.Close (call %d): %s", s.Closes, msg)
+		}
+	}
+}
+
+// CallCloser calls the close function deb.LoadFile returned (no-op for sessions opened with Open).
+func (s *Session) CallCloser() {
+	if s.d != nil && s.closer != nil {
+		s.Closes++
+		if panicked, msg := mc.Guard(func() { s.closer() }); panicked && s.O.Panic == "" {
+			s.O.Panic = fmt.Sprintf("LoadFile closer (close call %d): %s", s.Closes, msg)
+		}
 	}
 }
 
